@@ -23,7 +23,13 @@ func rebuildScenarios(seed int64, bi int, o Omni) []*Scenario {
 	if bi%5 == 1 {
 		opts.Gen.MaxDepth = 3
 	}
-	return genScenarios(r, opts)
+	scs := genScenarios(r, opts)
+	if bi%2 == 0 {
+		// the Terraform-like language: self references, inferred bodies with nested list/map/object blocks
+		ts, _ := tfScenario(r)
+		scs = append(scs, ts)
+	}
+	return scs
 }
 
 func firstDiff(a, b string) string {
